@@ -30,11 +30,7 @@ global size_of usize == 8;   // DESIGN.md section 6: usize is 64-bit in all proo
 impl<const B: Word> Repr<B> {
 //@@ FN float/repr/is_infinite.rs
 }
-impl<R: Round> Context<R> {
-//@@ FN float/convert/context_new.rs
-}
 impl<R: Round, const B: Word> FBig<R, B> {
-//@@ FN float/fbig/new.rs
 //@@ SIG float/round_ops/split_at_point_internal.rs
 //@@ FN float/round_ops/fbig_to_int.rs
 }
